@@ -83,7 +83,7 @@ def run_jobs(sc, prop, jobs, log):
                     lf.close()
                     used -= n
                     results[idx] = {"error": f"job {job.get('name')} timed out after {job.get('timeout', 3600)} s",
-                                    "timeout": True}
+                                    "timeout": True, "timeout_is_violation": bool(job.get("timeout_is_violation"))}
                 else:
                     still.append(ent)
                 continue
@@ -158,10 +158,13 @@ def main(argv=None):
         print(f"HARNESS-FAULT property={prop} build failed: {e}")
         return 2
     errors = [r["error"] for r in results if r and r.get("error")]
-    hard = [r for r in results if r and r.get("error") and not (r.get("timeout") and plan.get("timeout_is_violation"))]
+    # a job may declare that ITS timeout is a finding (a search whose termination is the property); any other timeout is a harness fault
+    def tiv(r):
+        return bool(r.get("timeout") and r.get("timeout_is_violation"))
+    hard = [r for r in results if r and r.get("error") and not tiv(r)]
     issues = []
     for r in results:
-        if r and r.get("timeout") and plan.get("timeout_is_violation"):
+        if r and tiv(r):
             issues.append({"kind": "violation", "property": prop, "what": r["error"],
                            "case": {"timeout": True}, "config": {}})
     if hard:
